@@ -23,6 +23,7 @@ class Trace:
         self.seq = 0
         self.runner = None
         self.close_probe = None
+        self.metas = {}          # name -> ResultMeta yielded by the runner for that task
 
     def rec(self, op, **kw):
         self.seq += 1
@@ -98,6 +99,7 @@ class SpyRunner(Runner):
             self.yielded.append(task)
             if ok:
                 self.ok_names.add(task.name)
+                self.trace.metas[task.name] = res
             for i, t in enumerate(self.inflight):
                 if t is task or t == task:
                     del self.inflight[i]
